@@ -12,9 +12,11 @@ import random
 import numpy as np
 
 from .core import HarnessError, digest_of
-from .pool import (Machine, Entry, Violation, Probe, gen_traj_data, se3_from,
-                   subsequence_ids, selection_ids, BETA_CAP, POS_RTOL)
-from .refmodel import LD, TrajModel, quat_to_rot, is_rotation, random_unit_quat
+from .pool import (Machine, Entry, Violation, ViewUnreadable, Probe,
+                   gen_traj_data, se3_from, subsequence_ids, selection_ids,
+                   BETA_CAP, POS_RTOL)
+from .refmodel import (LD, TrajModel, quat_to_rot, rot_to_quat, is_rotation,
+                       random_unit_quat)
 
 MUTATORS = ("transform", "scale", "reduce_to_ids", "downsample",
             "motion_filter", "time_range", "align", "align_origin", "project")
@@ -53,7 +55,7 @@ def build_object(m: Machine, uid, spec):
     pos, quat, ts = gen_traj_data(spec["data_seed"], spec["n"],
                                   spec.get("profile", {}))
     R = np.array([quat_to_rot(q) for q in quat])
-    if spec["ctor"] == "se3":
+    if spec["ctor"] in ("se3", "all"):
         poses = []
         for i in range(spec["n"]):
             P = np.eye(4)
@@ -62,12 +64,24 @@ def build_object(m: Machine, uid, spec):
             poses.append(P)
         Rm = np.array([P[:3, :3] for P in poses], dtype=LD)
         meta = copy.deepcopy(spec.get("meta"))
-        if spec["stamped"]:
+        if spec["ctor"] == "all":
+            # all three representations handed to the constructor
+            # (consistent with each other): every cache exists from the start
+            quat_c = np.array([np.array(rot_to_quat(r), dtype=float)
+                               for r in Rm])
+            if spec["stamped"]:
+                obj = T.PoseTrajectory3D(pos.copy(), quat_c, ts.copy(),
+                                         poses_se3=poses, meta=meta)
+            else:
+                obj = T.PosePath3D(pos.copy(), quat_c, poses, meta=meta)
+            m.probe_hit("built_from_all_three")
+        elif spec["stamped"]:
             obj = T.PoseTrajectory3D(poses_se3=poses, timestamps=ts.copy(),
                                      meta=meta)
+            m.probe_hit("built_from_se3")
         else:
             obj = T.PosePath3D(poses_se3=poses, meta=meta)
-        m.probe_hit("built_from_se3")
+            m.probe_hit("built_from_se3")
     else:
         Rm = R
         meta = copy.deepcopy(spec.get("meta"))
@@ -368,7 +382,7 @@ def execute_step(m: Machine, step, prop_of):
                 if e.model.n:
                     str(obj)
             elif view == "euler":
-                obj.get_orientations_euler()
+                obj.get_orientations_euler(step.get("axes", "sxyz"))
             elif view == "eq":
                 b = m.resolve(step["other"])
                 if b is None:
@@ -438,7 +452,8 @@ def do_compute(m: Machine, step):
         unit = {"f": M.Unit.frames, "m": M.Unit.meters, "d": M.Unit.degrees,
                 "r": M.Unit.radians}[step.get("unit", "f")]
         met = M.RPE(rel, step.get("delta", 1), unit, 0.1,
-                    step.get("all_pairs", False))
+                    step.get("all_pairs", False),
+                    step.get("pairs_from_reference", False))
         met.process_data((a.obj, b.obj))
         met.get_all_statistics()
         m.probe_hit("compute_rpe")
@@ -567,17 +582,35 @@ def do_plot(m, a, b, step):
         mode = {"xy": P.PlotMode.xy, "xyz": P.PlotMode.xyz,
                 "xz": P.PlotMode.xz}[step.get("mode", "xy")]
         ax = P.prepare_axis(fig, mode)
-        P.traj(ax, mode, a.obj)
+        P.traj(ax, mode, a.obj, style=step.get("style", "-"),
+               label=step.get("label", ""), alpha=0.5,
+               plot_start_end_markers=bool(step.get("markers")))
+        if step.get("many") and b is not None:
+            P.trajectories(fig, {"a": a.obj, "b": b.obj}
+                           if step["many"] == "dict" else [a.obj, b.obj],
+                           mode, plot_start_end_markers=bool(
+                               step.get("markers")))
         if step.get("axes"):
             P.draw_coordinate_axes(ax, a.obj, mode, 0.1)
         if a.stamped and step.get("xyz"):
             fig2 = plt.figure(figsize=(2, 2))
             try:
                 axs = fig2.subplots(3)
-                P.traj_xyz(axs, a.obj)
-                P.traj_rpy(axs, a.obj)
+                t_ref = None
+                if step.get("start_timestamp") is not None and a.model.n:
+                    t_ref = float(a.model.t[0]) + step["start_timestamp"]
+                unit = {"m": evo.metrics.Unit.meters,
+                        "km": evo.metrics.Unit.kilometers,
+                        "mm": evo.metrics.Unit.millimeters}[
+                            step.get("length_unit", "m")]
+                P.traj_xyz(axs, a.obj, start_timestamp=t_ref,
+                           length_unit=unit)
+                P.traj_rpy(axs, a.obj, start_timestamp=t_ref)
                 if a.model.n >= 2 and a.model.stamps_strictly_increasing():
-                    P.speeds(fig2.add_subplot(4, 1, 4), a.obj)
+                    P.speeds(fig2.add_subplot(4, 1, 4), a.obj,
+                             start_timestamp=t_ref)
+                m.probe_hit("compute_plot_optional_args" if t_ref else
+                            "compute_plot_time_series")
             finally:
                 plt.close(fig2)
         if step.get("colormap") and a.model.n >= 2:
@@ -616,7 +649,13 @@ def after_step(m: Machine, step, outcome, prop_of, before_results):
     new_ids = {id(e) for e in new}
     probes = {}
     for uid, e in list(m.entries.items()):
-        probes[uid] = m.probe(e.obj)
+        try:
+            probes[uid] = m.probe(e.obj)
+        except ViewUnreadable as vu:
+            mine = id(e) in rec_ids or (id(e) in new_ids and op == "deepcopy")
+            raise Violation(prop_of["receiver"] if mine else "C16",
+                            "view-unreadable", obj=uid, op=op, view=vu.view,
+                            exc=type(vu.exc).__name__, msg=str(vu.exc)[:160])
     # 1. everything that was not the receiver is bit-for-bit unchanged (C16-a)
     for uid, e in m.entries.items():
         if id(e) in rec_ids or id(e) in new_ids:
@@ -754,7 +793,7 @@ def gen_object_spec(rng, small=True):
     }
     if rng.random() < 0.25:
         profile["tzero"] = rng.choice(["first", "mid"])
-    spec = {"ctor": rng.choice(["se3", "xyzquat"]),
+    spec = {"ctor": rng.choice(["se3", "xyzquat", "se3", "xyzquat", "all"]),
             "stamped": rng.random() < 0.7, "n": n,
             "data_seed": rng.getrandbits(32), "profile": profile}
     if rng.random() < 0.5:
@@ -919,6 +958,8 @@ def gen_step(m: Machine, rng, uid):
             return None
         if view == "eq":
             st["other"] = rng.choice(alive).uid
+        if view == "euler":
+            st["axes"] = rng.choice(["sxyz", "rzyx", "szxz", "ryxy"])
         return st
     what = rng.choice(["ape", "rpe", "main_ape", "main_rpe", "id_pairs",
                        "filter_by_motion", "matching_time_indices", "umeyama",
@@ -938,6 +979,7 @@ def gen_step(m: Machine, rng, uid):
             st["delta"] = rng.choice([1, 1, 2, 3])
             st["unit"] = "f"
             st["all_pairs"] = rng.random() < 0.3
+            st["pairs_from_reference"] = rng.random() < 0.3
         st["scale"] = rng.random() < 0.5
         st["contiguous"] = rng.random() < 0.5
     elif what == "lie":
@@ -974,8 +1016,15 @@ def gen_step(m: Machine, rng, uid):
         st["axes"] = rng.random() < 0.5
         st["xyz"] = rng.random() < 0.5
         st["colormap"] = rng.random() < 0.5
+        st["markers"] = rng.random() < 0.5
+        st["label"] = rng.choice(["", "est"])
+        st["many"] = rng.choice([None, "dict", "list"])
+        st["start_timestamp"] = rng.choice([None, 0.0, 1.5, -2.0, 100.0])
+        st["length_unit"] = rng.choice(["m", "m", "km", "mm"])
         if same:
             st["b"] = rng.choice(same).uid
+        elif len(alive) > 1:
+            st["b"] = rng.choice([x for x in alive if x is not e]).uid
     return st
 
 
